@@ -1,7 +1,7 @@
 \* all graphs: <= 2 model types out of 4 kinds, <= 2 generations, <= 2 nodes per (model, generation), <= 2 links
 SPECIFICATION Spec
 CONSTANTS
-  Kinds = {"Input", "Sum", "FixedPartition", "Muskingum"}
+  Kinds = {"Sum", "FixedPartition", "Muskingum"}
   MaxModels = 2
   MaxGen = 2
   MaxPerGen = 2
